@@ -1066,10 +1066,10 @@ class MultiGrid(_PropertyGrid):
         x, y = pos
         if agent.pos is None or agent not in self._grid[x][y]:
             self._grid[x][y].append(agent)
-            agent.pos = pos
             if self._empties_built:
                 self._empties.discard(pos)
             self._empty_mask[int(x), int(y)] = False
+            agent.pos = pos
 
     def remove_agent(self, agent: Agent) -> None:
         """Remove the agent from the given location and set its pos attribute to None."""
